@@ -155,8 +155,11 @@ def run_case(kind, p):
     elif kind == "circular":
         sy, sx, radius = p["sy"], p["sx"], p["radius"]
         cen = p["centers"]
-        st = masks.sparse_circular_multi_stack(list(range(len(cen))), [c[1] for c in cen], [c[0] for c in cen],
-                                               sx, sy, radius).todense()
+        cxs, cys = [c[1] for c in cen], [c[0] for c in cen]
+        cdt = p.get("center_dtype")
+        if cdt and (np.dtype(cdt).kind != "u" or min(cxs + cys) >= 0):    # the same integer centres in another container / dtype
+            cxs, cys = np.asarray(cxs, dtype=cdt), np.asarray(cys, dtype=cdt)
+        st = masks.sparse_circular_multi_stack(list(range(len(cen))), cxs, cys, sx, sy, radius).todense()
         for k, (cy, cx) in enumerate(cen):
             ref = masks.circular(centerX=cx, centerY=cy, imageSizeX=sx, imageSizeY=sy, radius=radius)
             if not np.array_equal(st[k].astype(bool), ref):
@@ -189,7 +192,10 @@ def search(ctx, boost=1, focus=()):
         p = {"pattern": pat, "peaks": peaks, "sy": sy, "sx": sx}
         ctx.oracle_case("feature_vector", p, run_case("feature_vector", p))
         p = {"sy": sy, "sx": sx, "radius": float(np.round(rng.uniform(0.5, 8), 2)),
-             "centers": [[int(rng.integers(-3, sy + 3)), int(rng.integers(-3, sx + 3))] for _ in range(4)]}
+             "centers": [[int(rng.integers(-3, sy + 3)), int(rng.integers(-3, sx + 3))] for _ in range(4)],
+             "center_dtype": [None, "int64", "uint8", "uint16", "int16", "uint64", "float64", "uint32"][k % 8]}
+        if p["center_dtype"] and np.dtype(p["center_dtype"]).kind == "u":
+            p["centers"] = [[int(rng.integers(0, sy)), int(rng.integers(0, sx))] for _ in range(3)] + [[0, int(rng.integers(0, sx))]]
         ctx.oracle_case("circular", p, run_case("circular", p))
     ctx.count("feature_vector+circular", n // 4)
 
